@@ -13,7 +13,8 @@
     What stays a TRANSCRIPT of networkx' enumeration, recorded per run, each under a decidable contract that
     the model itself enforces (a violated contract is EAssert, i.e. a correspondence mismatch):
       * [M]  the answer of nx.max_weight_matching on that subgraph (Edmonds' blossom algorithm, not modelled):
-             it must be a matching of the modelled subgraph that no edge of the subgraph can extend;
+             it must be a matching of the modelled subgraph that no edge of the subgraph can extend and - when no
+             wildcard is involved - for which a bounded exhaustive search finds no augmenting path (maximum size);
       * [L]  the rings dekekulize marked, in the order it met them (nx.biconnected_components / simple_cycles /
              cycle_basis and its early exit are not modelled): each must be a duplicate-free closed walk over
              existing non-zero bonds between atoms of pysmiles' AROMATIC_ATOMS, and - unless it comes from the
@@ -83,12 +84,55 @@ Fixpoint prune (g : graph) (cand : list Z) : res (list Z) :=
 Definition sub_edge (g : graph) (ds : list Z) (u v : Z) : bool :=
   memz u ds && memz v ds && match edge_attrs g u v with Ok d => negb (order_is 0 d) | Err _ => false end.
 Definition matched_nodes (M : list (Z * Z)) : list Z := flat_map (fun e => [fst e; snd e]) M.
-(** contract of the transcript M: a matching of sub_ds_graph that no edge of it extends *)
+(** the partner of a matched node *)
+Fixpoint mate (M : list (Z * Z)) (x : Z) : option Z :=
+  match M with
+  | [] => None
+  | (u, v) :: r => if Z.eqb u x then Some v else if Z.eqb v x then Some u else mate r x
+  end.
+(** search for an M-augmenting path: a simple path that starts at the unmatched node [u], alternates between bonds
+    outside and inside M and ends at another unmatched node (Berge: M is a maximum matching iff there is none).
+    Exhaustive over simple alternating paths, bounded by a work budget: (Some true, _) = found, (Some false, _) =
+    none exists from here, (None, _) = budget exhausted (no verdict). *)
+Fixpoint aug (g : graph) (ds : list Z) (M : list (Z * Z)) (depth budget : nat) (path : list Z) (u : Z)
+  : option bool * nat :=
+  match depth with
+  | O => (None, budget)
+  | Datatypes.S dp =>
+      (fix go (nb : list Z) (budget : nat) : option bool * nat :=
+         match nb with
+         | [] => (Some false, budget)
+         | v :: r =>
+             match budget with
+             | O => (None, O)
+             | Datatypes.S b =>
+                 if memz v path || Z.eqb u v || negb (sub_edge g ds u v) then go r b else
+                 match mate M v with
+                 | None => (Some true, b)
+                 | Some w =>
+                     if Z.eqb w u || memz w path then go r b else
+                     match aug g ds M dp b (w :: v :: path) w with
+                     | (Some true, b') => (Some true, b')
+                     | (Some false, b') => go r b'
+                     | (None, b') => match go r b' with (Some true, b2) => (Some true, b2) | (_, b2) => (None, b2) end
+                     end
+                 end
+             end
+         end) (neighbors g u) budget
+  end.
+Definition aug_budget : nat := 3000.
+(** no augmenting path was FOUND from any unmatched node (an exhausted budget gives no verdict and passes) *)
+Definition no_augmenting (g : graph) (ds : list Z) (M : list (Z * Z)) : bool :=
+  forallb (fun u => memz u (matched_nodes M) ||
+                    match fst (aug g ds M (length ds) aug_budget [u] u) with Some true => false | _ => true end) ds.
+(** contract of the transcript M: a matching of sub_ds_graph that no edge of it extends; and, when no wildcard is
+    involved (then every weight is 1 and maximum weight means maximum size), that no augmenting path extends either *)
 Definition matching_okb (g : graph) (ds : list Z) (M : list (Z * Z)) : bool :=
   forallb (fun e => negb (Z.eqb (fst e) (snd e)) && sub_edge g ds (fst e) (snd e)) M
   && nodupz (matched_nodes M)
   && forallb (fun u => memz u (matched_nodes M) ||
-                       forallb (fun v => Z.eqb u v || memz v (matched_nodes M) || negb (sub_edge g ds u v)) (neighbors g u)) ds.
+                       forallb (fun v => Z.eqb u v || memz v (matched_nodes M) || negb (sub_edge g ds u v)) (neighbors g u)) ds
+  && (existsb (star_node g) ds || no_augmenting g ds M).
 
 (** ---------------------------------------------------------------- dekekulize, one marked ring *)
 Definition ring_edges (c : list Z) : list (Z * Z) :=
